@@ -290,7 +290,9 @@ def cap_writers(repo, chk):
                             par = par or parents(f.node)
                             sites.append((f, n, par.get(n)))
     for f, n, g in sites:
-        ok = f.qualname == 'get_combinations_from_columns' and isinstance(n, ast.Assign) and ast.unparse(n.value) == 'MAX_FEATURES_3MR' and isinstance(g, ast.If) and ast.unparse(g.test).replace(' ', '') == 'args.combination_number_upper_bound>MAX_FEATURES_3MR'
+        from ..match import expected_term
+        ok = f.qualname == 'get_combinations_from_columns' and isinstance(n, ast.Assign) and ast.unparse(n.value) == 'MAX_FEATURES_3MR' and isinstance(g, ast.If) \
+            and term_of(f, g.test, inline=False) == expected_term(f.module, f'{f.params[1]}.combination_number_upper_bound > MAX_FEATURES_3MR')
         chk.expect(ok, 'C06.3w', 'R2', f.site(n), ast.unparse(n), 'whitelisted: 3MR clamp of the cap to MAX_FEATURES_3MR', f'{f.qualname} overwrites args.combination_number_upper_bound (an object shared by all batches of a run): later batches are reduced by something other than the configured cap')
     if not sites:
         chk.ok('C06.3w', 'R2', 'outrank', 'no writer of args.combination_number_upper_bound', 'the cap is the configured value')
